@@ -91,8 +91,9 @@ PROPS = {
         assumptions=["little-endian host (the generated table records which routines swap on THIS host)"],
     ),
     "C05": dict(
-        lean_props=["H4.Props.C05"],
+        lean_props=["H4.Props.C05", "H4.Props.C05Bits", "H4.Props.C05NBit", "H4.Props.C05Skp"],
         engines=[
+            E("bits", "e_bits.c", model="bits", quick=dict(cases=2500, args=[700]), thorough=dict(cases=30000, seeds=8, args=[3000], chunk=200)),
             E("comp", "e_comp.c", model="rle", quick=dict(cases=1500, args=[2048]), thorough=dict(cases=20000, seeds=8, args=[66000], chunk=200)),
         ],
         trusted_base=["zlib (deflate coder): not modelled; its round trip is checked on the implementation only"],
